@@ -50,12 +50,27 @@ class MembershipMonitor(Ext):
             members.add(p.key)
         self.base[p] = (members, 0)
 
+    def members_at(self, p, k):
+        """Member set of node p at its log position k: its base configuration (constructor list, or the
+        snapshot it loaded) folded with the membership entries of its log up to k.  Node-relative on
+        purpose: a node that was added later starts with the then current member list, so for positions
+        before its own addition its set legitimately differs from the one an original member had there."""
+        base, upto = self.base[p]
+        changes = []
+        for e in p.journal.mirror:
+            if upto < e[1] <= k:
+                ch = parse_membership(e[0])
+                if ch is not None:
+                    changes.append(ch)
+        return fold(base, changes, p.key if p.voter else None)
+
     def on_load(self, p, data):
         try:
             cluster = set(n.id for n in data[3] if n is not None)
             k = data[1][1]
         except Exception:
             return
+        # (what a snapshot carries is checked when it is taken, see SnapshotMonitor.on_serialize)
         p.pending_base = (cluster, k)
 
     def expected_members(self, p):
@@ -175,6 +190,7 @@ class MemberSim(Sim):
         self.mm = MembershipMonitor(self.mon)
         self.mon.ext.append(self.mm)
         self.mon.current_voters = lambda: set(self.mm.committed_members)
+        self.mon.members_at = self.mm.members_at
         self.pool = ['10.0.0.%d:4321' % (i + 1) for i in range(5)]
         self.mreq = 0
         self.pending_add = {}
